@@ -271,4 +271,22 @@ WITNESSES = [
                  "                ret[key].append(known[idx])\n                continue\n"),
                 ("            try:\n                self._generic_indices[space][spin].remove(idx)\n            except ValueError:\n                continue\n",
                  "            pool = self._generic_indices[space][spin]\n            if idx in pool:\n                pool.remove(idx)\n")]),
+    # R19j: revert of 5192557 (renames applied one after another to the already renamed expression)
+    dict(id="c19-rename-simultaneous-revert", prop="C19", file=T, expect="R19j",
+         edits=[("            all_subs.extend(subs)\n", "            for old, new in subs:\n                expr.rename_tensor(old, new)\n"),
+                ("        for i, (old, _) in enumerate(all_subs):\n            expr.rename_tensor(old, f\"_tmp_name_{i}_\")\n"
+                 "        for i, (_, new) in enumerate(all_subs):\n            expr.rename_tensor(f\"_tmp_name_{i}_\", new)\n", "")]),
+    # R19j: the temporary names are resolved before all old names are parked
+    dict(id="c19-rename-interleaved", prop="C19", file=T, expect="R19j",
+         old="        for i, (old, _) in enumerate(all_subs):\n            expr.rename_tensor(old, f\"_tmp_name_{i}_\")\n"
+             "        for i, (_, new) in enumerate(all_subs):\n            expr.rename_tensor(f\"_tmp_name_{i}_\", new)\n",
+         new="        for i, (old, new) in enumerate(all_subs):\n            expr.rename_tensor(old, f\"_tmp_name_{i}_\")\n"
+             "            expr.rename_tensor(f\"_tmp_name_{i}_\", new)\n"),
+    # the two passes written with zip and a list of temporaries
+    dict(id="c19-ok-rename-two-pass-zip", prop="C19", file=T, expect=None,
+         old="        for i, (old, _) in enumerate(all_subs):\n            expr.rename_tensor(old, f\"_tmp_name_{i}_\")\n"
+             "        for i, (_, new) in enumerate(all_subs):\n            expr.rename_tensor(f\"_tmp_name_{i}_\", new)\n",
+         new="        parked = [f\"_tmp_name_{i}_\" for i in range(len(all_subs))]\n"
+             "        for (old, _), tmp in zip(all_subs, parked):\n            expr.rename_tensor(current=old, new=tmp)\n"
+             "        for (_, configured), tmp in zip(all_subs, parked):\n            expr.rename_tensor(tmp, configured)\n"),
 ]
